@@ -658,3 +658,31 @@ func DescribeFacts(fs []Fact) string {
 	sort.Strings(out)
 	return strings.Join(out, " ; ")
 }
+
+// LinForm is Σ coef·term + Const.
+type LinForm struct {
+	Terms map[string]int64
+	Const int64
+}
+
+// LinearDiff returns x - y in the same linear normal form (and term naming) the
+// facts use; nil if either side is not an integer expression.
+func (w *World) LinearDiff(x, y ssa.Value) *LinForm {
+	if !isInteger(x.Type()) || !isInteger(y.Type()) {
+		return nil
+	}
+	l, r := w.linear(x, 0), w.linear(y, 0)
+	out := &LinForm{Terms: map[string]int64{}, Const: l.c - r.c}
+	for k, c := range l.terms {
+		out.Terms[k] += c
+	}
+	for k, c := range r.terms {
+		out.Terms[k] -= c
+	}
+	for k, c := range out.Terms {
+		if c == 0 {
+			delete(out.Terms, k)
+		}
+	}
+	return out
+}
